@@ -168,6 +168,10 @@ def ptcpStep (st : PTcpSt) (ws : List String) : PTcpSt × String :=
     match parseHex hex with
     | some d => onSock st n fun s => do let (b, s) ← notifyPacket s d clk; pure (if b then 1 else 0, "-", s)
     | none => (st, "bad-op")
+  | ["pktm", n, hex] =>      -- pseudo_tcp_socket_notify_message (header buffer + body buffer): same parse as `pkt`
+    match parseHex hex with
+    | some d => onSock st n fun s => do let (b, s) ← notifyMessage s d clk; pure (if b then 1 else 0, "-", s)
+    | none => (st, "bad-op")
   | ["pktz", n, hex, z] =>
     match parseHex hex, z.toNat? with
     | some d, some z =>
